@@ -433,6 +433,11 @@ fn js_field(field: &str) -> String {
     format!("_json->'$.{}'", field)
 }
 
+//the SQL value of the field: aggregate functions must compare numbers, not their JSON text
+fn js_value(field: &str) -> String {
+    format!("_json->>'$.{}'", field)
+}
+
 fn get_fields(
     entity: &EntityQuery,
     prepared_query: &mut SingleQuery,
@@ -587,7 +592,7 @@ fn get_fields(
                         let agg_field = if field.field.is_system {
                             field.field.name.clone()
                         } else {
-                            js_field(f)
+                            js_value(f)
                         };
                         format!("'{}', avg({}) ", &field.name(), agg_field)
                     }
@@ -596,7 +601,7 @@ fn get_fields(
                         let agg_field = if field.field.is_system {
                             field.field.name.clone()
                         } else {
-                            js_field(f)
+                            js_value(f)
                         };
                         format!("'{}', max({}) ", &field.name(), agg_field)
                     }
@@ -604,7 +609,7 @@ fn get_fields(
                         let agg_field = if field.field.is_system {
                             field.field.name.clone()
                         } else {
-                            js_field(f)
+                            js_value(f)
                         };
                         format!("'{}', min({}) ", &field.name(), agg_field)
                     }
@@ -612,7 +617,7 @@ fn get_fields(
                         let agg_field = if field.field.is_system {
                             field.field.name.clone()
                         } else {
-                            js_field(f)
+                            js_value(f)
                         };
                         format!("'{}', total({}) ", &field.name(), agg_field)
                     }
